@@ -10,6 +10,7 @@
 (*   New(r)       build the pipeline objects; r[c] = recompute of cache c   *)
 (*   Drop(c)      Cache.drop_cache()                                        *)
 (*   ChangeData   the upstream data changes (flow version ver)              *)
+(*   Restart      the container object of the last Start is run once more   *)
 (*   Start(form)  Sequence.run(flow) / Source() / the result of             *)
 (*                alter_sequence: every Cache.run decides by cache_exists() *)
 (*                (file there and not recompute) between _load_flow and     *)
@@ -45,13 +46,17 @@ CONSTANTS MaxN,       \* flows of length 0..MaxN
                       \* 0 followed by a longer one makes loading an EMPTY stored flow observable)
           Scenarios,  \* pipelines explored: set of <<number of caches, shape>>
           Forms,      \* how a run is started (labels for the harness, same meaning)
+          Reruns,     \* subset of BOOLEAN: the values of rr explored.  rr = TRUE: the container object of a Start is
+                      \* kept and can be run again (Restart); rr = FALSE: every run uses a new container
+          RerunScenarios, RerunLens, RerunForms,   \* the pipelines / length profiles / forms explored with rr = TRUE
           StopKinds,  \* "close", "abandon"
           KeepHistory,\* TRUE: record the commands in h (export); FALSE: h stays empty
           Design      \* "allowed" (what the statement permits) | "rename" (one conforming design:
                       \* temporary name, renamed on exhaustion; used to generate the command
                       \* histories of the export) | "final_name" (pinned code)
 
-VARIABLES lens, nc, shape,        \* scenario: flow length per data version, number of caches, which of
+VARIABLES rr,                     \* scenario: containers are kept (see Reruns)
+          lens, nc, shape,        \* scenario: flow length per data version, number of caches, which of
                                   \* pre/mid/post exist
           ver,                    \* current version of the upstream data
           file,                   \* per cache: [k |-> "A" absent | "F" loadable | "B" refused, c |-> content]
@@ -65,14 +70,26 @@ VARIABLES lens, nc, shape,        \* scenario: flow length per data version, num
           eager,                  \* in a run: the pipeline is a Split branch - Split.run reads its input in
                                   \* blocks before the branch runs, so the source is pulled (and may raise)
                                   \* whatever the caches do; only the source is affected
+          cont,                   \* the container object of the last Start since New (it can be run again, Restart):
+                                  \* [k |-> there is one, hl |-> the cache it was hoisted at when it was built
+                                  \* (0: not hoisted), f |-> the form it was built in, e |-> ghost: how its last run
+                                  \* ended ("new": it has not run to an end yet, "full", "intr") - keeps the states
+                                  \* after a complete and after an interrupted run of the same object apart, so that
+                                  \* the exported histories run it again after either]
           pos, out,               \* values delivered in this run
           pulled, wpre, wmid,     \* pulls from src, values handled by pre, by mid in this run
           h                       \* ghost: commands so far (hidden by VIEW; exported)
-vars == <<lens, nc, shape, ver, file, stored, intr, ph, rc, L, eager, pos, out, pulled, wpre, wmid, h>>
-view == <<lens, nc, shape, ver, file, stored, intr, ph, rc, L, eager, pos, out, pulled, wpre, wmid>>
+vars == <<rr, lens, nc, shape, ver, file, stored, intr, ph, rc, L, eager, cont, pos, out, pulled, wpre, wmid, h>>
+view == <<rr, lens, nc, shape, ver, file, stored, intr, ph, rc, L, eager, cont, pos, out, pulled, wpre, wmid>>
 \* forms of starting a run in which the pipeline is a branch of Split([...]) (core/split.py: the branches go
 \* through meta.alter_sequence when the Split is built)
 EagerForms == {"split"}
+\* forms in which the container is the result of an alter_sequence: it MAY be a Source hoisted at the last filled cache
+\* (an optimisation: whether it really is one is left open)
+AlterForms == {"seq_calter", "source_calter", "seq_malter", "source_malter", "el_calter", "el_malter", "split",
+               "seq_nested_calter", "seq_nested_malter"}
+NoCont == [k |-> FALSE, hl |-> 0, f |-> "", e |-> ""]
+ContEnd(x) == cont' = IF cont.k THEN [cont EXCEPT !.e = x] ELSE cont
 \* (quick: "split", "source", the nested forms and consumer "abandon" are left to the random histories and to thorough)
 FormsQuick == {"seq", "source_calter", "seq_malter", "el_calter", "el_malter"}
 FormsAll == {"seq", "source", "seq_calter", "source_calter", "seq_malter", "source_malter", "el_calter", "el_malter",
@@ -93,34 +110,43 @@ ShapesFor(m) == {Shape(a, b, c) : a \in BOOLEAN, b \in (IF m = 1 THEN {FALSE} EL
 Cmd(name, a, r, c) == [cmd |-> name, a |-> a, rc |-> r, c |-> c]
 Log(hh, c) == IF KeepHistory THEN Append(hh, c) ELSE hh
 
-InitWith(lens0, nc0, shape0) ==
-  /\ lens = lens0 /\ nc = nc0 /\ shape = shape0 /\ ver = 1
+InitWith(rr0, lens0, nc0, shape0) ==
+  /\ rr = rr0 /\ lens = lens0 /\ nc = nc0 /\ shape = shape0 /\ ver = 1
   /\ file = [c \in 1..nc0 |-> Absent] /\ stored = [c \in 1..nc0 |-> 0]
   /\ intr = [c \in 1..nc0 |-> FALSE]
   /\ ph = "noobj" /\ rc = [c \in 1..nc0 |-> FALSE]
-  /\ L = 0 /\ eager = FALSE /\ pos = 0 /\ out = <<>> /\ pulled = 0 /\ wpre = 0 /\ wmid = 0 /\ h = <<>>
-Init == \E l0 \in LenProfiles, sc \in Scenarios : InitWith(l0, sc[1], sc[2])
+  /\ L = 0 /\ eager = FALSE /\ cont = NoCont /\ pos = 0 /\ out = <<>> /\ pulled = 0 /\ wpre = 0 /\ wmid = 0 /\ h = <<>>
+Init == \/ FALSE \in Reruns /\ \E l0 \in LenProfiles, sc \in Scenarios : InitWith(FALSE, l0, sc[1], sc[2])
+        \/ TRUE \in Reruns /\ \E l0 \in RerunLens, sc \in RerunScenarios : InitWith(TRUE, l0, sc[1], sc[2])
 ScenAll == {<<m, s>> : m \in {1, 2}, s \in ShapesFor(2)} \ {<<1, s>> : s \in {t \in ShapesFor(2) : t.mid}}
+\* rr = TRUE, thorough
+LensRerunThorough == {<<2, 1>>, <<0, 2>>}
+ScenRerunThorough == {<<1, Shape(FALSE, FALSE, FALSE)>>, <<1, Shape(TRUE, FALSE, TRUE)>>, <<1, Shape(TRUE, FALSE, FALSE)>>,
+                      <<2, Shape(FALSE, FALSE, FALSE)>>, <<2, Shape(FALSE, TRUE, FALSE)>>, <<2, Shape(TRUE, TRUE, TRUE)>>}
+\* rr = TRUE, quick
+ScenRerunQuick == {<<1, Shape(FALSE, FALSE, FALSE)>>, <<1, Shape(TRUE, FALSE, TRUE)>>, <<2, Shape(FALSE, FALSE, FALSE)>>}
+LensRerunQuick == {<<1, 2>>}
+FormsRerunQuick == {"seq", "source_calter", "el_malter", "split"}
 \* quick: a cache first, last and next to the other one (no taps); every tap present
 ScenQuick == {<<1, Shape(FALSE, FALSE, FALSE)>>, <<1, Shape(TRUE, FALSE, TRUE)>>,
               <<2, Shape(FALSE, FALSE, FALSE)>>, <<2, Shape(TRUE, TRUE, TRUE)>>}
 
-Scenario == UNCHANGED <<lens, nc, shape>>
+Scenario == UNCHANGED <<rr, lens, nc, shape>>
 RunVars == <<L, eager, pos, out, pulled, wpre, wmid>>
 
 (***************************************************************************)
 (* Between runs.                                                           *)
 (***************************************************************************)
-New(r) == /\ ph \in {"noobj", "idle"} /\ ph' = "idle" /\ rc' = r
+New(r) == /\ ph \in {"noobj", "idle"} /\ ph' = "idle" /\ rc' = r /\ cont' = NoCont
           /\ h' = Log(h, Cmd("new", "", r, 0))
           /\ Scenario /\ UNCHANGED <<ver, file, stored, intr>> /\ UNCHANGED RunVars
 Drop(c) == /\ ph = "idle" /\ file' = [file EXCEPT ![c] = Absent] /\ stored' = [stored EXCEPT ![c] = 0]
            /\ intr' = [intr EXCEPT ![c] = FALSE]
            /\ h' = Log(h, Cmd("drop", "", rc, c))
-           /\ Scenario /\ UNCHANGED <<ver, ph, rc>> /\ UNCHANGED RunVars
+           /\ Scenario /\ UNCHANGED <<ver, ph, rc, cont>> /\ UNCHANGED RunVars
 ChangeData == /\ ph = "idle" /\ ver < MaxVer /\ ver' = ver + 1
               /\ h' = Log(h, Cmd("data", "", rc, 0))
-              /\ Scenario /\ UNCHANGED <<file, stored, intr, ph, rc>> /\ UNCHANGED RunVars
+              /\ Scenario /\ UNCHANGED <<file, stored, intr, ph, rc, cont>> /\ UNCHANGED RunVars
 
 (***************************************************************************)
 (* A run.                                                                  *)
@@ -129,14 +155,27 @@ ChangeData == /\ ph = "idle" /\ ver < MaxVer /\ ver' = ver + 1
 Loadable(c) == ~rc[c] /\ file[c].k # "A"
 LastLoadable == IF \E c \in 1..nc : Loadable(c) THEN CHOOSE c \in 1..nc : Loadable(c) /\ \A d \in 1..nc : Loadable(d) => d <= c
                 ELSE 0
+\* a new container is built and run
 Start(form) == /\ ph = "idle" /\ ph' = "run" /\ L' = LastLoadable /\ eager' = (form \in EagerForms)
+               /\ IF rr THEN \E x \in (IF form \in AlterForms THEN {0, LastLoadable} ELSE {0}) :
+                                 cont' = [k |-> TRUE, hl |-> x, f |-> form, e |-> "new"]
+                        ELSE cont' = NoCont
                /\ pos' = 0 /\ out' = <<>> /\ pulled' = 0 /\ wpre' = 0 /\ wmid' = 0
                /\ h' = Log(h, Cmd("start", form, rc, 0))
                /\ Scenario /\ UNCHANGED <<ver, file, stored, intr, rc>>
+\* the SAME container object is run again.  Every Cache.run in it decides anew; a Source hoisted at cache hl when the
+\* container was built is fed by that cache whatever has happened to it since (unless a later cache can be loaded)
+Restart == /\ ph = "idle" /\ cont.k /\ ph' = "run"
+           /\ L' = (IF LastLoadable >= cont.hl THEN LastLoadable ELSE cont.hl) /\ eager' = (cont.f \in EagerForms)
+           /\ pos' = 0 /\ out' = <<>> /\ pulled' = 0 /\ wpre' = 0 /\ wmid' = 0
+           /\ h' = Log(h, Cmd("restart", "", rc, 0))
+           /\ ContEnd("new")     \* (the ghost only tells idle states apart)
+           /\ Scenario /\ UNCHANGED <<ver, file, stored, intr, rc>>
 
 Cur == IF L = 0 THEN F(ver) ELSE file[L].c     \* the flow that feeds this run
 CurVer == IF L = 0 THEN ver ELSE stored[L]
-Broken == L > 0 /\ file[L].k = "B"
+\* (a hoisted container run again after its cache was dropped has nothing to load and no upstream: it can only raise)
+Broken == L > 0 /\ file[L].k # "F"
 Dumping(c) == c > L
 Active(site) == CASE site = "src" -> L = 0 \/ eager
                   [] site = "pre" -> L = 0 /\ shape.pre
@@ -151,14 +190,14 @@ Deliver == /\ ph = "run" /\ ~Broken /\ pos < Len(Cur)
            /\ wpre' = wpre + (IF L = 0 /\ shape.pre THEN 1 ELSE 0)
            /\ wmid' = wmid + (IF L <= 1 /\ shape.mid THEN 1 ELSE 0)
            /\ h' = Log(h, Cmd("next", "", rc, 0))
-           /\ Scenario /\ UNCHANGED <<ver, file, stored, intr, ph, rc, L, eager>>
+           /\ Scenario /\ UNCHANGED <<ver, file, stored, intr, ph, rc, L, eager, cont>>
 
 Exhaust == /\ ph = "run" /\ ~Broken /\ pos = Len(Cur)
            /\ file' = [c \in 1..nc |-> IF Dumping(c) THEN Full(Cur) ELSE file[c]]
            /\ stored' = [c \in 1..nc |-> IF Dumping(c) THEN CurVer ELSE stored[c]]
            /\ intr' = [c \in 1..nc |-> IF Dumping(c) THEN FALSE ELSE intr[c]]
            /\ h' = Log(h, Cmd("next", "", rc, 0))
-           /\ EndRun /\ Scenario /\ UNCHANGED <<ver, rc>>
+           /\ EndRun /\ Scenario /\ UNCHANGED <<ver, rc>> /\ ContEnd("full")
 
 \* what an interrupted dump may leave at the final file name
 AfterInterrupt(c) ==
@@ -174,21 +213,23 @@ Interrupt ==
 
 \* (an element raises while it handles the next value of the feeding flow; inside a Split the source is read,
 \* and may raise, before anything is delivered - whatever the flow that feeds the run)
-RaiseAt(site) == /\ ph = "run" /\ ~Broken /\ Active(site)
-                 /\ (pos < Len(Cur) \/ (eager /\ site = "src" /\ lens[ver] > 0))
+RaiseAt(site) == /\ ph = "run" /\ Active(site)
+                 /\ ((~Broken /\ pos < Len(Cur)) \/ (eager /\ site = "src" /\ lens[ver] > 0))
                  /\ Interrupt /\ h' = Log(h, Cmd("raise", site, rc, 0))
-                 /\ EndRun /\ Scenario /\ UNCHANGED <<ver, rc>>
+                 /\ EndRun /\ Scenario /\ UNCHANGED <<ver, rc>> /\ ContEnd("intr")
 Stop(kind) == /\ ph = "run" /\ Interrupt /\ h' = Log(h, Cmd("stop", kind, rc, 0))
-              /\ EndRun /\ Scenario /\ UNCHANGED <<ver, rc>>
+              /\ EndRun /\ Scenario /\ UNCHANGED <<ver, rc>> /\ ContEnd("intr")
 BrokenRaise == /\ ph = "run" /\ Broken /\ Interrupt /\ h' = Log(h, Cmd("next", "", rc, 0))
-               /\ EndRun /\ Scenario /\ UNCHANGED <<ver, rc>>
+               /\ EndRun /\ Scenario /\ UNCHANGED <<ver, rc>> /\ ContEnd("intr")
 
 Sites == {"src", "pre", "mid", "post", "pkl"}
+StartAny == \E f \in (IF rr THEN RerunForms ELSE Forms) : Start(f)
 NewAny == \E r \in [1..nc -> BOOLEAN] : New(r)
 DropAny == \E c \in 1..nc : Drop(c)
 Next == \/ NewAny \/ DropAny
         \/ ChangeData
-        \/ \E f \in Forms : Start(f)
+        \/ StartAny
+        \/ Restart
         \/ Deliver \/ Exhaust \/ BrokenRaise
         \/ \E s \in Sites : RaiseAt(s)
         \/ \E k \in StopKinds : Stop(k)
@@ -200,7 +241,7 @@ Spec == Init /\ [][Next]_vars
 IsPrefix(a, b) == Len(a) <= Len(b) /\ a = SubSeq(b, 1, Len(a))
 TypeOK == /\ (\A v \in 1..MaxVer : lens[v] \in 0..MaxN) /\ nc \in {1, 2} /\ ver \in 1..MaxVer
           /\ ph \in {"noobj", "idle", "run"}
-          /\ L \in 0..nc /\ pos \in 0..MaxN /\ Len(out) = pos
+          /\ L \in 0..nc /\ pos \in 0..MaxN /\ Len(out) = pos /\ cont.hl \in 0..nc /\ (cont.hl > 0 => cont.k /\ ~rc[cont.hl])
           /\ \A c \in 1..nc : file[c].k \in {"A", "F", "B"} /\ stored[c] \in 0..MaxVer
 \* a loadable cache always holds a complete flow (never a proper prefix)
 NoTruncated == \A c \in 1..nc : file[c].k = "F" => \E v \in 1..ver : file[c].c = F(v)
@@ -214,8 +255,10 @@ LoadIsStored == (ph = "run" /\ L > 0 /\ ~Broken) => out = SubSeq(F(stored[L]), 1
 \* (inside a Split the source is read by Split.run itself; the elements before the cache still do not run)
 LoadNoPull == (ph = "run" /\ L > 0) => (~eager => pulled = 0) /\ wpre = 0 /\ (L = 2 => wmid = 0)
 \* recompute=True and drop_cache() restore the first-run behaviour
-RestoreFirstRun == ph = "run" => \A c \in 1..nc : (rc[c] \/ file[c].k = "A") => L # c
-FirstRunWhenNothingLoadable == (ph = "run" /\ \A c \in 1..nc : rc[c] \/ file[c].k = "A") => L = 0
+\* (the one exception: a container that was hoisted at cache c and is run again after drop_cache() - it raises)
+Dangling == cont.k /\ cont.hl > 0 /\ L = cont.hl /\ Broken
+RestoreFirstRun == ph = "run" => \A c \in 1..nc : (rc[c] \/ file[c].k = "A") => (L # c \/ Dangling)
+FirstRunWhenNothingLoadable == (ph = "run" /\ \A c \in 1..nc : rc[c] \/ file[c].k = "A") => (L = 0 \/ Dangling)
 \* a run that ends normally has presented a complete flow (never a prefix as if complete),
 \* the current one when nothing was loaded, and has stored it in every cache it passed
 CompleteIsComplete == [][Exhaust => /\ \E v \in 1..ver : out = F(v)
@@ -230,5 +273,7 @@ InterruptKeepsLoaded == [][(ph = "run" /\ ph' = "idle") => \A c \in 1..nc : c <=
 (* history leading to it (each distinct state is expanded once, with the    *)
 (* history that reached it first; h is hidden by VIEW).                     *)
 (***************************************************************************)
-EmitEdge == PrintT(ToJson([lens |-> lens, nc |-> nc, shape |-> shape, h |-> h']))
+\* (with rr = TRUE only the histories with a Restart: the others are those of rr = FALSE)
+EmitEdge == IF ~rr \/ \E i \in 1..Len(h') : h'[i].cmd = "restart"
+            THEN PrintT(ToJson([lens |-> lens, nc |-> nc, shape |-> shape, h |-> h'])) ELSE TRUE
 =============================================================================
